@@ -20,6 +20,8 @@ func propC09(r *Report, tier string) {
 	ruleSearchBeforeReverse(r, "K5-search-before-reverse")
 	ruleResultMerges(r, "K9b-result-merge")
 	ruleHitsInCurrentPage(r, "K5-page-after-sort")
+	rulePageTrimCoversSizeZero(r, "K5-page-trim-covers-size-zero")
+	ruleMergeAccumulates(r, "K9b-merge-accumulates", "search.(FieldTermSynonymMap).MergeWith", "search.(*FacetResult).Merge", "search.(FacetResults).Merge")
 	r.Floor("K9b-member-request-carries-all", 12)
 	r.Floor("K6-copy-isolation", 2)
 	r.Floor("K5-multisearch-order", 3)
